@@ -17,6 +17,7 @@ From Coba Require C06.Run.
 From Coba Require C19.Run.
 From Coba Require C07.Run.
 From Coba Require C12.Run.
+From Coba Require C08.Run.
 Open Scope Z_scope.
 
 Definition dispatch (op : Z) (x : sx) : sx :=
@@ -37,5 +38,6 @@ Definition dispatch (op : Z) (x : sx) : sx :=
   | 19 => C19.Run.run x
   | 7 => C07.Run.run x
   | 12 => C12.Run.run x
+  | 8 => C08.Run.run x
   | _ => err 98
   end.
